@@ -7,7 +7,8 @@
 // (ReadValue/WriteValue/PreCommit/Commit/Abort, in the order MPCalContext.Run uses them) and when
 // virtual time passes (back-off sleeps, 1 s Abort/Commit retry); within a fault budget it drops a
 // request or a reply (error to the sender), duplicates a request, or lets a sibling resource refuse
-// its pre-commit (the section is aborted after a successful PreCommit).
+// its pre-commit (the section is aborted after a successful PreCommit); a timeout is an error to the
+// sender while the request is still delivered later.
 package c11
 
 import (
@@ -35,7 +36,7 @@ type Cfg struct {
 	Scripts     [][]string `json:"scripts"`   // per node: section kinds ("rmw", "blind")
 	MaxAttempts int        `json:"max_attempts"`
 	Budget      int        `json:"budget"`
-	Faults      []string   `json:"faults"` // subset of: drop-req drop-reply dup sibling-abort
+	Faults      []string   `json:"faults"` // subset of: drop-req drop-reply timeout dup sibling-abort
 	MaxSteps    int        `json:"max_steps"`
 	// Atomic: a request and its reply are one scheduler step (the reply reaches the sender before anything
 	// else happens).  Coarser than the default (request processing and reply delivery scheduled separately);
@@ -376,6 +377,9 @@ func (w *world) enabled() (free, faults []move) {
 		if (m.stage == 1 && m.err == nil || m.stage == 0 && w.cfg.Atomic) && w.cfg.fault("drop-reply") {
 			faults = append(faults, move{kind: "drop-reply", m: m})
 		}
+		if m.stage == 0 && w.cfg.fault("timeout") {
+			faults = append(faults, move{kind: "timeout", m: m})
+		}
 		if m.stage == 0 && !m.dupped && w.cfg.fault("dup") {
 			faults = append(faults, move{kind: "dup", m: m})
 		}
@@ -461,6 +465,17 @@ func (w *world) apply(mv move) int {
 			w.deliverReply(mv.m)
 		} else {
 			mv.m.err = errDropped
+		}
+	case "timeout":
+		// the sender gives up waiting (RPCReplicaHandle: "RPC timeout") but the request is still on its way
+		// and is processed later; its reply then goes nowhere
+		d := &msg{id: w.nextID, from: mv.m.from, to: mv.m.to, req: mv.m.req, dup: true}
+		w.nextID++
+		w.pend = append(w.pend, d)
+		mv.m.stage, mv.m.err = 1, errDropped
+		if w.cfg.Atomic {
+			aff = mv.m.from
+			w.deliverReply(mv.m)
 		}
 	case "dup":
 		mv.m.dupped = true
